@@ -59,6 +59,8 @@ def gen(rng):
         "pool_timeout": gen_timeout(rng) if rng.random() < 0.7 else "unset",
         "requests": [],
     }
+    if rng.random() < 0.12:
+        sc["sock_default"] = rng.choice([0.7, 4.0])  # socket.setdefaulttimeout() in force: what "unset" means -- and only "unset"
     for i in range(rng.choice([1, 2, 2])):
         rq = {"d": rng.choice(DURS), "w": rng.choice(DELAYS), "close_after": rng.random() < 0.3}
         if rng.random() < (0.5 if sc["pool_timeout"] != "unset" else 0.9):
@@ -220,12 +222,18 @@ def num(v):
     return None if v in ("unset", None) else v
 
 
-def reference(spec, elapsed):
-    """(connect timeout, read timeout given `elapsed` seconds already spent connecting); None = wait for ever."""
+def reference(spec, elapsed, default=None):
+    """(connect timeout, read timeout given `elapsed` seconds already spent connecting); None = wait for ever.
+    `default`: the process-wide socket default (socket.setdefaulttimeout): what an *unset* connect/read value means; an explicit None
+    still means no limit."""
     if "float" in spec:
         total, connect, read = None, spec["float"], spec["float"]
     else:
-        total, connect, read = num(spec.get("total", "unset")), num(spec.get("connect", "unset")), num(spec.get("read", "unset"))
+        total = num(spec.get("total", "unset"))
+        # an unset connect/read falls back to the process default only when no total bounds it (with a total, "unset" and None both
+        # mean "bounded by the total alone")
+        dflt = lambda v: (default if total is None else None) if v == "unset" else v  # noqa: E731
+        connect, read = dflt(spec.get("connect", "unset")), dflt(spec.get("read", "unset"))
     ct = connect if total is None else (total if connect is None else min(connect, total))
     if total is None:
         rt = read
@@ -262,6 +270,24 @@ def run(sc: dict) -> Result:
         res.digest = "invalid"
         res.nontrivial = True
         return res
+    sock_default = sc.get("sock_default")
+    if sock_default is None:
+        return _run_grid(sc, None)
+    import socket as _rs
+
+    _rs.setdefaulttimeout(sock_default)  # (the real module: whichever way the library imports the function, it sees this value)
+    try:
+        return _run_grid(sc, sock_default)
+    finally:
+        _rs.setdefaulttimeout(None)
+
+
+def _run_grid(sc, sock_default):
+    from urllib3.exceptions import ConnectTimeoutError, ReadTimeoutError
+    from urllib3.util.timeout import Timeout
+
+    res = Result()
+    urllib3 = H.u3()
     https = sc["scheme"] in ("https", "tunnel")
     tunnel = sc["scheme"] == "tunnel"
     dials = []
@@ -299,7 +325,7 @@ def run(sc: dict) -> Result:
                 res.probes["request_override"] += 1
             fresh = not have_conn
             d = rq["d"] if fresh else 0
-            ct, rt = reference(spec, d if fresh else 0)
+            ct, rt = reference(spec, d if fresh else 0, sock_default)
             w.dials.clear()
             w.exchanges.clear()
             if fresh:
@@ -339,7 +365,7 @@ def run(sc: dict) -> Result:
                     sent = True
                 if sent and e[1] in ("recv", "recv_timeout", "recv_block", "recv_eof"):
                     if obs_read is None:
-                        obs_read = ("val", cur_to.get(e[2]))
+                        obs_read = ("val", cur_to.get(e[2], sock_default))
                     recv_after_send += 1
             tag = f"request {i} ({'fresh' if fresh else 'reused'} connection, spec {spec}, d={d}, w={rq['w']})"
             # ---- the request is written under a timeout of *this* request (urllib3 uses the connect timeout for sending), never under
@@ -349,8 +375,8 @@ def run(sc: dict) -> Result:
                 if e[1] == "settimeout":
                     to_now[e[2]] = e[3]
                 elif e[1] == "send" and e[0] >= n_ev0 and foreign is None:
-                    obs = to_now.get(e[2])
-                    allowed = [ct, rt] + ([reference(spec, 0)[1]] if fresh else [])
+                    obs = to_now.get(e[2], sock_default)
+                    allowed = [ct, rt] + ([reference(spec, 0, sock_default)[1]] if fresh else [])
                     if not any(_same(obs, a) for a in allowed):
                         foreign = (obs,)
                     elif not fresh:
@@ -472,6 +498,10 @@ def shrinks(sc):
     if sc["scheme"] != "http":
         c = copy.deepcopy(sc)
         c["scheme"] = "http"
+        yield c
+    if sc.get("sock_default") is not None:
+        c = copy.deepcopy(sc)
+        del c["sock_default"]
         yield c
     if sc["pool_timeout"] != "unset":
         c = copy.deepcopy(sc)
